@@ -250,6 +250,13 @@ impl<'a, 'tcx> Cx<'a, 'tcx> {
                 _ => {}
             },
         }
+        if let Some(ConstValue::Scalar(Scalar::Ptr(ptr, _))) = val {
+            // pointer to a static item: record which one
+            let (prov, _off) = ptr.into_raw_parts();
+            if let rustc_middle::mir::interpret::GlobalAlloc::Static(sdid) = tcx.global_alloc(prov.alloc_id()) {
+                o.push(("static", J::S(path_str(tcx, sdid))));
+            }
+        }
         if let Some(v) = val {
             match v {
                 ConstValue::Scalar(Scalar::Int(s)) => {
